@@ -23,6 +23,7 @@ type cs struct {
 	Lua       bool   `json:"lua"`
 	Range     string `json:"range"`
 	Open      string `json:"open"`
+	Cors      bool   `json:"cors"` // the unprotected path that shares the backend enables CORS
 }
 
 type rule struct {
@@ -49,6 +50,8 @@ var urls = map[string]string{
 	"unknown_proto":      "ftp://10.0.0.9/check",
 	"missing_port":       "svc://auth/check",
 	"unknown_svc":        "svc://nosuch:8080/check",
+	"trailing_blank":     "http://10.0.0.9:8000/check ",
+	"quoted":             "\"http://10.0.0.9:8000/check\"",
 }
 
 func runCase(base string, i int, c cs) (rec, error) {
@@ -95,7 +98,11 @@ func runCase(base string, i int, c cs) (rec, error) {
 		pub = "/aaa"
 	}
 	p.Apply(kobj.Ingress("d", "prot", 1, ann, nil, []kobj.Rule{{Host: "a.local", Paths: paths}}, nil, nil))
-	p.Apply(kobj.Ingress("d", "pub", 2, map[string]string{"ssl-redirect": "false"}, nil,
+	pubann := map[string]string{"ssl-redirect": "false"}
+	if c.Cors {
+		pubann["cors-enable"] = "true"
+	}
+	p.Apply(kobj.Ingress("d", "pub", 2, pubann, nil,
 		[]kobj.Rule{{Host: "a.local", Paths: []kobj.Path{{Path: pub, Svc: "app", Port: "8080"}}}}, nil, nil))
 	if _, err := p.ReconcilePending(false); err != nil {
 		return r, err
